@@ -34,7 +34,7 @@ func (c13) Runs(tier string) int {
 	if tier == "thorough" {
 		return 20000
 	}
-	return 300
+	return 600
 }
 
 func c13GenRange(r *rand.Rand, size int) string {
